@@ -209,67 +209,56 @@ Definition type_table : list (string * string * mtype) :=
    ("PING", "ping", MPing); ("PONG", "pong", MPong); ("SUBSCRIBE", "subscribe", MSubscribe);
    ("NEXT", "next", MNext); ("ERROR", "error", MError); ("COMPLETE", "complete", MComplete)].
 
-Inductive tyres := TInvalid | TCrash (e : string) | TKnown (t : mtype) (payload : json).
+Inductive tyres := TInvalid | TKnown (t : mtype) (payload : option json).   (* None: no "payload" key *)
 
-Definition hashable (j : json) : bool := match j with JArr _ | JObj _ => false | _ => true end.
-
-(* json.loads; .get("type"); .get("payload", {}); `if not type_ or type_ not in {...}` *)
+(* json.loads; `not isinstance(message_dict, dict)`; .get("type"); .get("payload", {});
+   `not isinstance(type_, str) or type_ not in {...}`   (/repo 2ce90a9) *)
 Definition msg_type (f : frame) : tyres :=
   match f with
   | FText _ => TInvalid
   | FJson (JObj kv) =>
-      let type_ := match jlookup "type" kv with Some t => t | None => JNull end in
-      let payload := match jlookup "payload" kv with Some p => p | None => JObj [] end in
-      if negb (truthy type_) then TInvalid
-      else if negb (hashable type_) then TCrash "TypeError"
-      else match type_ with
-           | JStr s => match mtype_of_string s with Some t => TKnown t payload | None => TInvalid end
-           | _ => TInvalid
-           end
-  | FJson _ => TCrash "AttributeError"
+      match jlookup "type" kv with
+      | Some (JStr s) => match mtype_of_string s with Some t => TKnown t (jlookup "payload" kv) | None => TInvalid end
+      | _ => TInvalid
+      end
+  | FJson _ => TInvalid
   end.
 
 Inductive action :=
-| ANone | AData (d : json) | AInvalid | AClose | APong | AMulti (errs : list json) | ACrash (e : string).
+| ANone | AData (d : json) | AInvalid | AClose | APong
+| AMulti (errs : list json) (whole : bool).   (* data= the whole message (error frame) / None (next with null data) *)
 
-Definition is_str (s : string) (j : json) : bool :=
-  match j with JStr t => String.eqb s t | _ => false end.
-Definition has_substring (sub s : string) : bool :=
-  match index 0 sub s with Some _ => true | None => false end.
+Definition is_error_obj (e : json) : bool :=
+  match e with JObj kv => jhas "message" kv | _ => false end.
 
-(* `if "data" not in payload: raise Invalid` ; `return payload["data"]` *)
+(* next: payload must be an object with "data"; null data raises the result's errors (/repo 20e6b35) *)
 Definition next_action (p : json) : action :=
   match p with
-  | JObj kv => match jlookup "data" kv with Some d => AData d | None => AInvalid end
-  | JArr l => if existsb (is_str "data") l then ACrash "TypeError" else AInvalid
-  | JStr s => if has_substring "data" s then ACrash "TypeError" else AInvalid
-  | _ => ACrash "TypeError"
+  | JObj kv =>
+      match jlookup "data" kv with
+      | None => AInvalid
+      | Some JNull =>
+          match jlookup "errors" kv with
+          | Some (JArr (e :: l)) => if forallb is_error_obj (e :: l) then AMulti (e :: l) false else AInvalid
+          | _ => AInvalid
+          end
+      | Some d => AData d
+      end
+  | _ => AInvalid
   end.
 
-(* GraphQLClientGraphQLError.from_dict on one element of the error payload *)
-Definition err_elem_exn (e : json) : option string :=
-  match e with
-  | JObj kv => if jhas "message" kv then None else Some "KeyError"
-  | _ => Some "TypeError"
-  end.
-Fixpoint first_bad (l : list json) : option string :=
-  match l with
-  | [] => None
-  | e :: r => match err_elem_exn e with Some x => Some x | None => first_bad r end
+(* error: message_dict.get("payload", []) must be a list of objects with "message" *)
+Definition error_action (kv_payload : option json) : action :=
+  match kv_payload with
+  | None => AMulti [] true
+  | Some (JArr l) => if forallb is_error_obj l then AMulti l true else AInvalid
+  | Some _ => AInvalid
   end.
 
-(* GraphQLClientGraphQLMultiError.from_errors_dicts(errors_dicts=payload, ...) *)
-Definition error_action (p : json) : action :=
-  match p with
-  | JArr l => match first_bad l with None => AMulti l | Some e => ACrash e end
-  | JObj [] => AMulti []
-  | JStr "" => AMulti []
-  | _ => ACrash "TypeError"
-  end.
-
-Definition action_of (t : mtype) (p : json) : action :=
+(* next reads message_dict.get("payload", {}), error re-reads message_dict.get("payload", []) *)
+Definition action_of (t : mtype) (p : option json) : action :=
   match t with
-  | MNext => next_action p
+  | MNext => next_action (match p with Some x => x | None => JObj [] end)
   | MComplete => AClose
   | MPing => APong
   | MError => error_action p
@@ -286,13 +275,14 @@ Definition nonnull (j : json) : bool := match j with JNull => false | _ => true 
 
 Inductive phase := AwaitAck | Streaming | Done (o : outcome).
 
+Definition multi_data (whole : bool) (f : frame) : json := if whole then frame_json f else JNull.
+
 Definition step (rq : request) (ph : phase) (f : frame) : phase * list event :=
   match ph with
   | Done _ => (ph, [])
   | AwaitAck =>
       match msg_type f with
       | TInvalid => (Done (RaisedInvalid (Some f)), [ERecv])
-      | TCrash e => (Done (RaisedOther e), [ERecv])
       | TKnown MAck _ =>
           match subscribe_msg rq with
           | Some m => (Streaming, [ERecv; ESend m])
@@ -303,7 +293,6 @@ Definition step (rq : request) (ph : phase) (f : frame) : phase * list event :=
   | Streaming =>
       match msg_type f with
       | TInvalid => (Done (RaisedInvalid (Some f)), [ERecv])
-      | TCrash e => (Done (RaisedOther e), [ERecv])
       | TKnown t p =>
           match action_of t p with
           | ANone => (ph, [ERecv])
@@ -311,8 +300,7 @@ Definition step (rq : request) (ph : phase) (f : frame) : phase * list event :=
           | AInvalid => (Done (RaisedInvalid (Some f)), [ERecv])
           | AClose => (Done Finished, [ERecv; EClose])   (* close(); return _WS_COMPLETE; break *)
           | APong => (ph, [ERecv; ESend pong_msg])
-          | AMulti errs => (Done (RaisedMulti errs (frame_json f)), [ERecv])
-          | ACrash e => (Done (RaisedOther e), [ERecv])
+          | AMulti errs w => (Done (RaisedMulti errs (multi_data w f)), [ERecv])
           end
       end
   end.
@@ -378,16 +366,12 @@ Definition msg_type_otel (f : frame) : tyres :=
   match f with
   | FText _ => TInvalid
   | FJson (JObj kv) =>
-      let type_ := match jlookup "type" kv with Some t => t | None => JNull end in
-      let payload := match jlookup "payload" kv with Some p => p | None => JObj [] end in
       (* span.set_attribute("type", type_) happens here *)
-      if negb (truthy type_) then TInvalid
-      else if negb (hashable type_) then TCrash "TypeError"
-      else match type_ with
-           | JStr s => match mtype_of_string s with Some t => TKnown t payload | None => TInvalid end
-           | _ => TInvalid
-           end
-  | FJson _ => TCrash "AttributeError"
+      match jlookup "type" kv with
+      | Some (JStr s) => match mtype_of_string s with Some t => TKnown t (jlookup "payload" kv) | None => TInvalid end
+      | _ => TInvalid
+      end
+  | FJson _ => TInvalid
   end.
 
 Definition SPAN_RECV := "received message".
@@ -398,7 +382,6 @@ Definition step_otel (rq : request) (ph : phase) (f : frame) : phase * list even
   | AwaitAck =>
       match msg_type_otel f with
       | TInvalid => (Done (RaisedInvalid (Some f)), [ERecv], [SPAN_RECV])
-      | TCrash e => (Done (RaisedOther e), [ERecv], [SPAN_RECV])
       | TKnown MAck _ =>
           (* the "subscribe" span json.dumps the converted variables before _send_subscribe *)
           match subscribe_msg rq with
@@ -410,7 +393,6 @@ Definition step_otel (rq : request) (ph : phase) (f : frame) : phase * list even
   | Streaming =>
       match msg_type_otel f with
       | TInvalid => (Done (RaisedInvalid (Some f)), [ERecv], [SPAN_RECV])
-      | TCrash e => (Done (RaisedOther e), [ERecv], [SPAN_RECV])
       | TKnown t p =>
           match action_of t p with
           | ANone => (ph, [ERecv], [SPAN_RECV])
@@ -418,8 +400,7 @@ Definition step_otel (rq : request) (ph : phase) (f : frame) : phase * list even
           | AInvalid => (Done (RaisedInvalid (Some f)), [ERecv], [SPAN_RECV])
           | AClose => (Done Finished, [ERecv; EClose], [SPAN_RECV])
           | APong => (ph, [ERecv; ESend pong_msg], [SPAN_RECV])
-          | AMulti errs => (Done (RaisedMulti errs (frame_json f)), [ERecv], [SPAN_RECV])
-          | ACrash e => (Done (RaisedOther e), [ERecv], [SPAN_RECV])
+          | AMulti errs w => (Done (RaisedMulti errs (multi_data w f)), [ERecv], [SPAN_RECV])
           end
       end
   end.
@@ -455,12 +436,14 @@ Definition strip_spans (t : trace) : trace :=
    independently of the handler above (only the table mtype_of_string is shared).               *)
 
 Inductive skind :=
-| SAck | SNext (d : json) | SPing | SPong | SComplete | SError (errs : list json)
+| SAck | SNext (d : json)          (* d is never null *)
+| SNextErrors (errs : list json)   (* next whose data is null: nothing to yield, the result's errors are raised *)
+| SPing | SPong | SComplete | SError (errs : list json)
 | SIgnored      (* connection_init / subscribe echoed by a server: known type, no client action *)
-| SMalformed.   (* non-JSON, not an object, missing/unknown type, next without data, bad error payload *)
+| SMalformed.   (* non-JSON, not an object, missing/unknown type, next without data or with null data and
+                   no errors, bad error payload *)
 
-Definition is_error_obj (e : json) : bool :=
-  match e with JObj kv => jhas "message" kv | _ => false end.
+Definition wf_errors (l : list json) : bool := forallb is_error_obj l.
 
 Definition skind_of (f : frame) : skind :=
   match f with
@@ -475,12 +458,21 @@ Definition skind_of (f : frame) : skind :=
           | Some MInit | Some MSubscribe => SIgnored
           | Some MNext =>
               match jlookup "payload" kv with
-              | Some (JObj p) => match jlookup "data" p with Some d => SNext d | None => SMalformed end
+              | Some (JObj p) =>
+                  match jlookup "data" p with
+                  | Some JNull =>
+                      match jlookup "errors" p with
+                      | Some (JArr (e :: l)) => if wf_errors (e :: l) then SNextErrors (e :: l) else SMalformed
+                      | _ => SMalformed
+                      end
+                  | Some d => SNext d
+                  | None => SMalformed
+                  end
               | _ => SMalformed
               end
           | Some MError =>
               match jlookup "payload" kv with
-              | Some (JArr l) => if forallb is_error_obj l then SError l else SMalformed
+              | Some (JArr l) => if wf_errors l then SError l else SMalformed
               | None => SError []
               | _ => SMalformed
               end
@@ -502,6 +494,7 @@ Fixpoint spec_stream (fs : list frame) : list event * outcome :=
       | SPong | SAck | SIgnored => let '(e, o) := spec_stream r in (ERecv :: e, o)
       | SComplete => ([ERecv; EClose], Finished)
       | SError l => ([ERecv], RaisedMulti l (frame_json f))
+      | SNextErrors l => ([ERecv], RaisedMulti l JNull)
       | SMalformed => ([ERecv], RaisedInvalid (Some f))
       end
   end.
@@ -522,71 +515,11 @@ Definition spec_ws (c : cfg) (rq : request) (fs : list frame) : trace :=
   {| t_connect := connect_of c; t_events := ESend (init_msg c) :: evs; t_fin := o; t_spans := [] |}.
 
 (* ------------------------------------------------------------------------------------------ *)
-(* Finding classes (boolean guards; the same functions are called by the harness)              *)
-
-(* G-shape, written syntactically and EXACT (Proofs/WsP.v: type_crashes_iff, payload_crashes_iff,
-   odd_error_iff): the frames on which the handler leaves with a non-protocol exception, plus the two
-   error payloads ({} and "") that give an EMPTY multi-error although they are not a list.          *)
-
-(* .get on a non-dict (AttributeError) or an unhashable type in `type_ not in {...}` (TypeError): any phase *)
-Definition type_crashes (f : frame) : bool :=
-  match f with
-  | FText _ => false
-  | FJson (JObj kv) =>
-      match jlookup "type" kv with
-      | Some (JArr (_ :: _)) | Some (JObj (_ :: _)) => true
-      | _ => false
-      end
-  | FJson _ => true
-  end.
-
-(* `"data" not in payload` / payload["data"] / from_errors_dicts(payload) on the wrong JSON kind: only
-   once the stream is open (before the ack the expected-type check comes first) *)
-Definition payload_crashes (f : frame) : bool :=
-  match f with
-  | FJson (JObj kv) =>
-      match jlookup "type" kv with
-      | Some (JStr s) =>
-          match mtype_of_string s with
-          | Some MNext =>
-              match jlookup "payload" kv with
-              | None | Some (JObj _) => false
-              | Some (JArr l) => existsb (is_str "data") l
-              | Some (JStr p) => has_substring "data" p
-              | Some _ => true
-              end
-          | Some MError =>
-              match jlookup "payload" kv with
-              | None | Some (JObj []) | Some (JStr "") => false
-              | Some (JArr l) => negb (forallb is_error_obj l)
-              | Some _ => true
-              end
-          | _ => false
-          end
-      | _ => false
-      end
-  | _ => false
-  end.
-
-Definition odd_empty_error (f : frame) : bool :=
-  match f with
-  | FJson (JObj kv) =>
-      match jlookup "type" kv with
-      | Some (JStr s) =>
-          match mtype_of_string s with
-          | Some MError => match jlookup "payload" kv with Some (JObj []) | Some (JStr "") => true | _ => false end
-          | _ => false
-          end
-      | _ => false
-      end
-  | _ => false
-  end.
-
-Definition shape_ok (f : frame) : bool :=
-  negb (type_crashes f) && negb (payload_crashes f) && negb (odd_empty_error f).
+(* (no finding class is open: the guards g_stop, g_vars, g_truthy/g_nonnull, g_shape/shape_ok were deleted
+   one by one as /repo b1e7ba9, d334181, 8b27040, 20e6b35, 2ce90a9 landed)                          *)
 
 Definition terminal (k : skind) : bool :=
-  match k with SComplete | SError _ | SMalformed => true | _ => false end.
+  match k with SComplete | SError _ | SNextErrors _ | SMalformed => true | _ => false end.
 
 (* the frames a conformant client consumes after the subscribe: up to and including the first
    complete / error / malformed frame *)
@@ -595,14 +528,6 @@ Fixpoint spec_prefix (fs : list frame) : list frame :=
   | [] => []
   | f :: r => if terminal (skind_of f) then [f] else f :: spec_prefix r
   end.
-
-(* G14 (narrowed by /repo 8b27040): no next frame the specification yields carries `data: null` *)
-Definition g_nonnull (fs : list frame) : bool :=
-  forallb (fun f => match skind_of f with SNext d => nonnull d | _ => true end) (spec_prefix fs).
-
-(* G-shape over the frames the specification consumes *)
-Definition g_shape (fs : list frame) : bool :=
-  match fs with [] => true | f :: r => negb (type_crashes f) && forallb shape_ok (spec_prefix r) end.
 
 Definition is_ack (f : frame) : bool := match skind_of f with SAck => true | _ => false end.
 
@@ -691,6 +616,7 @@ Definition sKind (k : skind) : sexp :=
   match k with
   | SAck => A "ack" | SNext d => L [A "next"; json_to_sexp d] | SPing => A "ping" | SPong => A "pong"
   | SComplete => A "complete" | SError l => L [A "error"; L (map json_to_sexp l)]
+  | SNextErrors l => L [A "next-errors"; L (map json_to_sexp l)]
   | SIgnored => A "ignored" | SMalformed => A "malformed"
   end.
 
@@ -712,9 +638,7 @@ Definition run_ws_cmd (e : sexp) : sexp :=
   | L [A "guards"; rq; fs] =>
       match dRequest rq, dList dFrame fs with
       | Some rq, Some fs =>
-          L [sB (g_shape fs);
-             sB (match fs with f :: r => g_nonnull r | [] => true end);
-             L (map (fun f => sKind (skind_of f)) fs)]
+          L [L (map (fun f => sKind (skind_of f)) fs)]
       | _, _ => sErr "guards: input"
       end
   | L [A "tables"] =>
